@@ -524,6 +524,9 @@ func contains(s []string, x string) bool {
 	return false
 }
 
+// AcquiresBucketLock reports whether f contains a bucket-lock acquire.
+func (m *Model) AcquiresBucketLock(f *ssa.Function) bool { return m.acquiresBucketLock(f) }
+
 func (m *Model) acquiresBucketLock(f *ssa.Function) bool {
 	found := false
 	Instrs(f, func(in ssa.Instruction) {
@@ -621,6 +624,7 @@ type LockEvent struct {
 	Key     string // Owner.Field
 	Root    ssa.Value
 	AddrV   ssa.Value // the address expression of the lock word (or of the wrapper's argument)
+	Extra   []string  // wrapper: field steps from the argument to the lock word
 	steps   []string
 }
 
@@ -664,7 +668,7 @@ func (m *Model) LockEventOfCall(c ssa.CallInstruction) *LockEvent {
 			if len(w.Steps) == 0 {
 				key = a.Key()
 			}
-			ev = &LockEvent{Acquire: w.Acquire, Canon: a.Canon(), Key: key, Root: a.Root, AddrV: args[w.Param], steps: a.Steps}
+			ev = &LockEvent{Acquire: w.Acquire, Canon: a.Canon(), Key: key, Root: a.Root, AddrV: args[w.Param], Extra: w.Steps, steps: a.Steps}
 			break
 		}
 		id := FuncID(cal)
